@@ -715,6 +715,7 @@ CORE_CFGS = {
     "sysm": (["A", "B"], {"VP_CAP": "2", "VP_CTXPERSIST": "1", "VP_SETUP": "loop2"}),
     "sysc": (["A", "B"], {"VP_CAP": "3", "VP_CTXPERSIST": "1"}),
     "srca": (["A"], {"VP_CAP": "2", "VP_CTXPERSIST": "1", "VP_NKEYS": "2"}),
+    "srcbad": (["A"], {"VP_CAP": "2", "VP_CTXPERSIST": "1", "VP_NKEYS": "2", "VP_BADKEYS": "2"}),
     "srcb": (["A"], {"VP_CAP": "2", "VP_CTXPERSIST": "1", "VP_NKEYS": "2"}),
     "fdev": (["A", "B"], {"VP_CAP": "2", "VP_CTXPERSIST": "1", "VP_SETUP": "loop2", "VP_NKEYS": "1"}),
     "rearm": (["A", "B"], {"VP_CAP": "2", "VP_CTXPERSIST": "1", "VP_SETUP": "loop2", "VP_NKEYS": "1"}),
@@ -853,7 +854,7 @@ def c17(prop, tier, seed):
 
 @check("C09")
 def c09(prop, tier, seed):
-    return core_check(prop, tier, seed, ["srca", "srcb", "btmo", "subos"], ["srca", "srcb", "btmo", "subos", "fdev", "tb"],
+    return core_check(prop, tier, seed, ["srca", "srcb", "srcbad", "btmo", "subos"], ["srca", "srcb", "srcbad", "btmo", "subos", "fdev", "tb"],
                       "Focus: per-kind keyed sets (descriptor, timer, signal, path, pid, threshold, subscription): EEXIST on a present key, removal of exactly the named key, per-kind and total counts through m_mod_src_len, survival across pause/resume, dropped at stop.", Dq=6, Dt=8)
 
 
